@@ -27,6 +27,14 @@ grids (every other exhaustive grid) the field grid — the flow-direction grid f
 mindata/maxdata exactly around its values with the no-data value outside them (sums and no-data must not be clipped);
 integer and float grids (uint8/int16/int32/int64/float flow directions). Cell limit:
 default, n, n-1, longest chain -1/0/+1, 1, 2, random; malformed stream: limit 0/-2/-7, zero rows, zero columns.
+Histories (one pair of grid objects, 2-4 calls): between calls the returned array is edited in place, the flow
+directions / the field are edited in place or re-assigned with an equal-size array, the field's no-data value is
+re-assigned, the limit changes, the grids are cloned / deep-copied / pickled, the field is dropped or added, the
+earlier result is fed back as the field; every answer is compared with the model and the oracle on the state the
+objects are in at that call. Also: field grids of another shape than the flow-direction grid (error kind `shape`),
+the kernel on explicit memory (both float buffers compared after the call), and the model's own vocabulary
+(AllTerminate, endsAt, upstream closure, direct upstream cells) against the harness's graph search on every grid up
+to 2x2 and every fifth random grid.
 A case is non-trivial when the grid is acyclic, run with the default limit, and has a cell that drains
 into another cell.
 """
@@ -380,26 +388,47 @@ class Runner:
                 pass        # a field of another shape accepted: not a clause of the property; the correspondence reports it
         return res
 
-    # -- the extension entry point on explicit buffers (accumulation buffer independent of the field)
-    def kernel_case(self, nrows, ncols, fd, fvals, nodata, cap, acc0, tag=""):
+    # -- the extension entry point on explicit buffers (accumulation buffer independent of the field, or the SAME array)
+    def kernel_case(self, nrows, ncols, fd, fvals, nodata, cap, acc0, tag="", alias=False):
         np, ctx = self.np, self.ctx
         fda = np.array(fd, dtype=np.int64).reshape(nrows, ncols)
         fa = np.array(fvals, dtype=np.float64).reshape(nrows, ncols)
-        acc = np.array(acc0, dtype=np.float64).reshape(nrows, ncols)
+        acc = fa if alias else np.array(acc0, dtype=np.float64).reshape(nrows, ncols)
         fd_b, f_b = fda.copy(), fa.copy()
         case = {"nrows": nrows, "ncols": ncols, "flowdir": [int(v) for v in fd], "field": [float(v) for v in fvals],
-                "nodata": nodata if nodata == nodata else "nan", "cap": cap, "acc0": [float(v) for v in acc0], "via": "kernel"}
+                "nodata": nodata if nodata == nodata else "nan", "cap": cap, "acc0": [float(v) for v in acc0], "via": "kernel",
+                "alias": bool(alias)}
         ierr = int(self.ext.accumulate(NPRINT, cap, nodata, self.G.FLOWDIRCODE, fda, fa, acc))
-        impl = ("ok", [float(v) for v in acc.ravel()]) if ierr == 0 else ("err", self.err_kind(ierr))
-        self.reqs.append(f"cacc {nrows} {ncols} {self.codes_tok} {C.ilist(fd)} {cap} {C.f2h(nodata)} "
-                         f"{C.flist(fvals)} {C.flist(acc0)}")
+        impl = ("okS", [float(v) for v in fa.ravel()], [float(v) for v in acc.ravel()]) if ierr == 0 else ("err", self.err_kind(ierr))
+        self.reqs.append(f"caccs {nrows} {ncols} {self.codes_tok} {C.ilist(fd)} {cap} {C.f2h(nodata)} "
+                         f"{C.flist(fvals)} {C.flist([] if alias else acc0)} {1 if alias else 0}")
         self.info.append((case, impl, list(fvals) + list(acc0), nodata, self.mult(nrows, ncols, fd, cap)))
         if not np.array_equal(fda, fd_b):
             ctx.finding("accumulate/input_altered/flowdir", "the kernel wrote into the flow-direction buffer", case)
-        if not np.array_equal(fa, f_b, equal_nan=True):
+        if not alias and not np.array_equal(fa, f_b, equal_nan=True):
             ctx.finding("accumulate/input_altered/field", "the kernel wrote into the to_accumulate buffer", case)
-        ctx.count(("k", nrows, ncols, tuple(fd), tuple(fvals), tuple(acc0), cap, C.f2h(nodata)), ierr == 0 and nrows * ncols > 0,
-                  f"kernel/{tag}/{'ok' if ierr == 0 else impl[1]}")
+        ctx.count(("k", nrows, ncols, tuple(fd), tuple(fvals), tuple(acc0), cap, C.f2h(nodata), alias), ierr == 0 and nrows * ncols > 0,
+                  f"kernel/{tag}/{'aliased/' if alias else ''}{'ok' if ierr == 0 else impl[1]}")
+
+    # -- the model's specification vocabulary against the harness's own graph search
+    def spec_case(self, nrows, ncols, fd):
+        ctx = self.ctx
+        n = nrows * ncols
+        fl = Flow(nrows, ncols, fd, self.offsets)
+        case = {"nrows": nrows, "ncols": ncols, "flowdir": list(fd), "via": "spec"}
+        ups = "[" + ";".join(",".join(str(u) for u in sorted(fl.up[c])) for c in range(n)) + "]"
+        clo = "[" + ";".join(",".join(str(u) for u in sorted(fl.closure(c))) for c in range(n)) + "]" if fl.acyclic else None
+        self.reqs.append(f"clo {nrows} {ncols} {self.codes_tok} {C.ilist(fd)} {n + 1}")
+        self.info.append((case, ("clo", clo, ups), [], 0.0, 1))
+        ends = []
+        for c in range(n):
+            t = c
+            while fl.steps[t] is not None and fl.down[t] >= 0:
+                t = fl.down[t]
+            ends.append(t if fl.steps[c] is not None else -9)
+        self.reqs.append(f"spec {nrows} {ncols} {self.codes_tok} {C.ilist(fd)} {n + 1}")
+        self.info.append((case, ("raw2", f"{1 if fl.acyclic else 0} {C.ilist(ends)}"), [], 0.0, 1))
+        ctx.count(("s", nrows, ncols, tuple(fd)), fl.acyclic and any(d >= 0 for d in fl.down), "spec/" + ("acyclic" if fl.acyclic else "cyclic"))
 
     def oracle(self, case, nrows, ncols, fd, fvals, unit, nd, cap, impl, tag, origin, fl):
         ctx = self.ctx
@@ -428,9 +457,10 @@ class Runner:
             return
         if not inside:
             return
-        exact = all(v == int(v) and abs(v) < 2 ** 40 for v in fvals)
+        finite = [v == v and abs(v) != float("inf") for v in fvals]
+        exact = all(finite) and all(v == int(v) and abs(v) < 2 ** 40 for v in fvals)
         # integer-valued fields: python integers (exact, and the sums must be met exactly); else exact rationals
-        fx = [int(v) for v in fvals] if exact else [F(v) for v in fvals]
+        fx = [int(v) for v in fvals] if exact else [F(v) if ok else None for v, ok in zip(fvals, finite)]
 
         def num(v):
             return int(v) if exact and abs(v) < 2 ** 62 and v == int(v) else F(v)
@@ -442,6 +472,8 @@ class Runner:
                                 {**case, "cell": c, "got": out[c]})
                 continue
             clo = fl.closure(c)
+            if not all(finite[u] for u in clo):
+                continue            # a NaN / infinite contribution: the sum is not a number, only the model speaks
             s = sum(fx[u] for u in clo)
             want[c] = s
             tol = 0 if exact else F(4 * len(clo) * EPS) * sum(abs(fx[u]) for u in clo)
@@ -457,7 +489,7 @@ class Runner:
                 continue
             rhs = fx[c] + sum(num(out[u]) for u in ups)
             tol = 0 if exact else F(8 * (len(ups) + 1) * EPS) * (abs(fx[c]) + sum(abs(F(out[u])) for u in ups) + abs(want[c])) \
-                + F(8 * n * EPS) * sum(abs(v) for v in fx)
+                + F(8 * n * EPS) * sum(abs(v) for v in fx if v is not None)
             if abs(num(out[c]) - rhs) > tol:
                 ctx.finding(f"accumulate/local_recurrence/{fk}",
                             "a draining cell does not hold its own value plus the results of its direct upstream neighbours",
@@ -489,13 +521,43 @@ class Runner:
                     if impl[1] != rep:
                         ctx.disagree("C11: downstream differs from the model", {"request": req[:400], **case, "impl": impl[1], "model": rep})
                     continue
+                if impl[0] == "raw2":
+                    if impl[1] != rep:
+                        ctx.disagree("C11: the model's AllTerminate / endsAt differ from the harness's acyclicity / terminal-cell search",
+                                     {"request": req[:400], **case, "oracle": impl[1], "model": rep})
+                    continue
+                if impl[0] == "clo":
+                    mclo, mups = rep.split(" ")
+                    if (impl[1] is not None and impl[1] != mclo) or impl[2] != mups:
+                        ctx.disagree("C11: the model's upstream closure / direct upstream cells differ from the harness's graph search",
+                                     {"request": req[:400], **case, "oracle": [impl[1], impl[2]], "model": [mclo, mups]})
+                    continue
                 if rep.startswith("err:") or impl[0] == "err":
                     a = "err:" + impl[1] if impl[0] == "err" else "ok"
                     b = rep if rep.startswith("err:") else "ok"
                     if a != b:
                         ctx.disagree("C11: error behaviour differs from the model", {"request": req[:400], **case, "impl": a, "model": b})
                     continue
-                vals, sens = rep[3:].split(" ")
+                toks = rep[3:].split(" ")
+                if impl[0] == "okS":
+                    # kernel on explicit memory: both float buffers after the call
+                    mfield, vals, sens = toks
+                    if not all((a != a and b != b) or a == b for a, b in zip(impl[1], C.parse_flist(mfield))) and not case.get("alias"):
+                        ctx.disagree("C11: to_accumulate memory after the call differs from the model", {"request": req[:400], **case})
+                    impl = ("ok", impl[2])
+                else:
+                    vals, sens = toks[0], toks[1]
+                    if len(toks) >= 6 and len(impl) >= 5:
+                        # wrapper on grid objects: no-data value and shape of the result, field memory after the call
+                        mnd, mshape = C.h2f(toks[2]), (int(toks[3]), int(toks[4]))
+                        if not ((mnd != mnd and impl[2] != impl[2]) or mnd == impl[2]) or mshape != tuple(impl[3]):
+                            ctx.disagree("C11: no-data value / shape of the result grid differ from the model",
+                                         {"request": req[:400], **case, "impl": [impl[2], list(impl[3])], "model": [mnd, list(mshape)]})
+                        if impl[4] is not None:
+                            mf = C.parse_flist(toks[5])
+                            if len(mf) != len(impl[4]) or not all((a != a and b != b) or a == b for a, b in zip(impl[4], mf)):
+                                ctx.disagree("C11: field grid values after the call differ from the model (which leaves them untouched)",
+                                             {"request": req[:400], **case})
                 model = C.parse_flist(vals)
                 # cells the model marks as depending on the visiting order of the outer loop (terminal cells
                 # incremented by a capped walk) are not constrained by the property: not compared
@@ -515,6 +577,100 @@ class Runner:
                 if bad:
                     ctx.disagree("C11: accumulate differs from the model", {"request": req[:400], **case, "impl": out[:64], "model": model[:64]})
         self.reqs, self.info = [], []
+
+
+def history_case(R, rng, code_at, alphabet, nmax):
+    """a short history on ONE pair of grid objects: call, then 1-3 times (change the state, call again); every answer
+    is compared with the model and the oracle evaluated on the state the objects are in at that call"""
+    import copy
+    import pickle
+    np, G = R.np, R.G
+    nrows, ncols = rng.randint(1, nmax), rng.randint(1, nmax)
+    if rng.random() < 0.3:
+        nrows, ncols = rng.choice([(1, 3), (2, 2), (2, 3), (1, 4), (3, 3)])
+    n = nrows * ncols
+
+    def new_fd():
+        r = rng.random()
+        if r < 0.5:
+            return gen_forest(rng, nrows, ncols, code_at)
+        if r < 0.7:
+            return gen_snake(nrows, ncols, code_at, rng.choice([0, 7, code_at[(1, 0)]]))
+        if r < 0.85:
+            return [rng.choice(alphabet) for _ in range(n)]
+        return plant_cycle(rng, nrows, ncols, gen_forest(rng, nrows, ncols, code_at), code_at)
+
+    def new_field():
+        return gen_field(rng, n, rng.choice(["uniform", "posint", "distinct", "posfloat", "signed"]), -9999.0)
+
+    fd_dtype = rng.choice(["int64", "int64", "uint8", "int32", "float64"])
+    fd0 = new_fd()
+    if fd_dtype == "uint8" and not all(0 <= v <= 255 for v in fd0):
+        fd_dtype = "int64"
+    fdg = G.Grid("fd", ncols=ncols, nrows=nrows, dtype=getattr(np, fd_dtype), nodata=0 if fd_dtype == "uint8" else -1)
+    fdg.data = np.array(fd0, dtype=np.int64).reshape(nrows, ncols)
+    fg = None
+    if rng.random() < 0.75:
+        f_dtype = rng.choice(["float64", "float64", "int32", "float32"])
+        fg = G.Grid("f", ncols=ncols, nrows=nrows, dtype=getattr(np, f_dtype), nodata=rng.choice([-9999, -1, 0]))
+        fg.data = np.array(new_field(), dtype=np.float64).reshape(nrows, ncols)
+    hist = ["call"]
+    cap = None
+    res = R.call_grids(fdg, fg, cap, tag="history", history=list(hist))
+    for _ in range(rng.randint(1, 3)):
+        acts = ["edit_flowdir", "assign_flowdir", "other_cap", "clone", "pickle", "toggle_field", "same_again"]
+        if res is not None:
+            acts += ["edit_result", "edit_result", "feed_back"]
+        if fg is not None:
+            acts += ["edit_field", "edit_field", "assign_field", "field_nodata", "flat_setitem"]
+        act = rng.choice(acts)
+        if act == "edit_result":
+            # the caller scribbles on the returned array: a later answer must not depend on it
+            res.data[...] = rng.choice([0.0, 123.0, -7.0])
+            if rng.random() < 0.5:
+                res.nodata = 77.0
+        elif act == "edit_flowdir":
+            # in place, same size: one or all cells get another direction
+            new = new_fd()
+            if rng.random() < 0.5:
+                k = rng.randrange(n)
+                fdg.data.flat[k] = new[k] if fdg.data.dtype != np.uint8 or 0 <= new[k] <= 255 else 0
+            else:
+                fdg.data[...] = np.array([v if fdg.data.dtype != np.uint8 or 0 <= v <= 255 else 0 for v in new]).reshape(nrows, ncols)
+        elif act == "assign_flowdir":
+            fdg.data = np.array([v if 0 <= v <= 255 else 0 for v in new_fd()], dtype=np.int64).reshape(nrows, ncols)
+        elif act == "edit_field":
+            if rng.random() < 0.5:
+                fg.data.flat[rng.randrange(n)] = float(rng.randint(0, 50))
+            else:
+                fg.data[...] = fg.data * 2 + 1
+        elif act == "flat_setitem":
+            fg[rng.randrange(n)] = float(rng.randint(1, 9))
+        elif act == "assign_field":
+            fg.data = np.array(new_field(), dtype=np.float64).reshape(nrows, ncols)
+        elif act == "field_nodata":
+            fg.nodata = rng.choice([-5, -9999, 0, 12345])
+        elif act == "other_cap":
+            cap = rng.choice([None, n, n + 3, max(n - 1, 1), 1, 2])
+        elif act == "clone":
+            fdg = fdg.clone() if rng.random() < 0.5 else copy.deepcopy(fdg)
+            if fg is not None:
+                fg = fg.clone()
+        elif act == "pickle":
+            fdg = pickle.loads(pickle.dumps(fdg))
+            if fg is not None:
+                fg = pickle.loads(pickle.dumps(fg))
+        elif act == "toggle_field":
+            if fg is None:
+                fg = G.Grid("f", ncols=ncols, nrows=nrows, dtype=np.float64, nodata=-9999.0)
+                fg.data = np.array(new_field(), dtype=np.float64).reshape(nrows, ncols)
+            else:
+                fg = None
+        elif act == "feed_back":
+            fg = res          # accumulate the accumulation: the earlier result is now an input grid
+        hist.append(act)
+        hist.append("call")
+        res = R.call_grids(fdg, fg, cap, tag="history", history=list(hist))
 
 
 def caps_for(rng, n, longest):
@@ -655,6 +811,8 @@ def _body(ctx, rng):
             R.wrapper_case(nrows, ncols, fd, field, nd, cap, fd_dtype, f_dtype, tag=gk, bounds=rng.random() < 0.4)
         if it % 4 == 0:
             R.downstream_case(nrows, ncols, [v for v in fd])
+        if it % 5 == 0:
+            R.spec_case(nrows, ncols, [v for v in fd])
         if it % 3 == 0:
             # the kernel on explicit buffers: accumulation not initialised from the field
             fvals = gen_field(rng, n, rng.choice(FIELD_KINDS[1:-1]), -9999.0)
@@ -663,6 +821,18 @@ def _body(ctx, rng):
             R.kernel_case(nrows, ncols, fd, fvals, rng.choice([-9999.0, float("nan"), -1.0]), cap, acc0, tag=gk)
         if it % 500 == 499:
             R.flush()
+    R.flush()
+
+    # ---- histories on one pair of grid objects
+    for it in range(ctx.scale(1500, 12000)):
+        history_case(R, rng, code_at, alphabet, ctx.scale(6, 8))
+        if it % 2000 == 1999:
+            R.flush()
+    R.flush()
+    # the model's specification vocabulary on every small grid
+    for (nrows, ncols) in [(1, 1), (1, 2), (2, 1), (2, 2)]:
+        for fd in itertools.product(alphabet, repeat=nrows * ncols):
+            R.spec_case(nrows, ncols, list(fd))
     R.flush()
 
     # ---- malformed stream: limit < 1, degenerate shapes
@@ -674,6 +844,18 @@ def _body(ctx, rng):
                        rng.choice([0, -2, -7, -100]), tag="malformed")
         fvals = [1.0] * n
         R.kernel_case(nrows, ncols, fd, fvals, -1.0, rng.choice([0, -1, -5]), fvals, tag="malformed")
+    # field grid of another shape than the flow-direction grid (the Cython asserts), also together with a bad limit
+    np, G = R.np, R.G
+    for it in range(ctx.scale(40, 400)):
+        nrows, ncols = rng.randint(1, 4), rng.randint(1, 4)
+        fr, fc = rng.choice([(ncols, nrows), (nrows + 1, ncols), (nrows, ncols + 1), (1, nrows * ncols), (nrows * ncols, 1)])
+        if (fr, fc) == (nrows, ncols):
+            continue
+        fdg = G.Grid("fd", ncols=ncols, nrows=nrows, dtype=np.int64, nodata=-1)
+        fdg.data = np.array(gen_forest(rng, nrows, ncols, code_at), dtype=np.int64).reshape(nrows, ncols)
+        fg = G.Grid("f", ncols=fc, nrows=fr, dtype=np.float64, nodata=-9999.0)
+        fg.data = np.array([float(rng.randint(1, 9)) for _ in range(fr * fc)]).reshape(fr, fc)
+        R.call_grids(fdg, fg, rng.choice([None, None, 0, -3, 5]), tag="malformed")
     for shape in [(0, 3), (0, 1), (0, 0), (2, 0), (1, 0)]:
         R.kernel_case(shape[0], shape[1], [], [], -1.0, 5, [], tag="degenerate")
     R.flush()
